@@ -348,6 +348,11 @@ impl RobotBody {
                     }
                 }
 
+                // Collision checks are disabled completely in this mode (as in `collides`)
+                if self.safety.mode == CheckMode::NoCheck {
+                    return Some(new_joints);
+                }
+
                 // Generate the full joint poses for collision checking
                 let joint_poses = kinematics.forward_with_joint_poses(&new_joints);
                 let joint_poses_f32: [Isometry3<f32>; 6] =
